@@ -27,13 +27,21 @@ def grids(ctx, scale):
     ps = sorted({0.0, 1.0, 0.5, 0.01, 0.99, 0.1, 0.9, 1e-9, 1 - 1e-9, 0.25, 1 / 3} | {rng.random() for _ in range(4 * scale)})
     cs = sorted({0.5, 0.8, 0.9, 0.95, 0.99, 0.999, 1e-12, 1 - 1e-12, 0.01, 0.3} | {rng.random() for _ in range(4 * scale)}
                 # next to the ends of (0,1): the largest doubles below 1, the smallest above 0
-                | {1 - 2.0 ** -53, 1 - 3 * 2.0 ** -53, 1 - 2.0 ** -52, 1 - 1e-13, 1 - 1e-15, 1 - 1e-9, 1e-15, 1e-100, 5e-324, 2.0 ** -53})
+                | {1 - 2.0 ** -53, 1 - 3 * 2.0 ** -53, 1 - 2.0 ** -52, 1 - 1e-13, 1 - 1e-15, 1 - 1e-9, 1e-15, 1e-100, 5e-324, 2.0 ** -53}
+                # small confidence levels: alpha/2 next to the median
+                | {1e-3, 1.9e-4, 1e-4, 3e-5, 1e-5, 1e-6, 1e-8})
     alphas = sorted({k / 1024 for k in range(1, 1024)} | {1e-12, 1e-9, 1e-6, 1 - 1e-6, 1 - 1e-12} | {rng.random() for _ in range(200 * scale)}
                     # the far tails: every binade boundary region down to the smallest positive float, and next to 1
                     | {10.0 ** -k for k in (13, 14, 15, 16, 17, 18, 20, 25, 30, 50, 80, 100, 113, 120, 150, 200, 250, 300, 307, 308, 310, 320)}
                     | {2.0 ** -k for k in (40, 50, 51, 52, 53, 54, 60, 64, 100, 500, 1000, 1022, 1023, 1050, 1074)}
                     | {2.220446049250313e-16, 1.1102230246251565e-16, 5e-324, 1 - 2.0 ** -53, 1 - 2.0 ** -52, 1 - 2.0 ** -51, 1 - 2.0 ** -40, 1 - 1e-15}
-                    | {10.0 ** -(rng.random() * 320) for _ in range(20 * scale)})
+                    | {10.0 ** -(rng.random() * 320) for _ in range(20 * scale)}
+                    # next to the median, on both sides, at every scale down to one ulp: where a series, a shortcut or a table replaces the formula
+                    | {0.5 + sg * 2.0 ** -k for k in range(2, 54) for sg in (-1, 1)} | {0.5 + sg * 10.0 ** -k for k in range(1, 17) for sg in (-1, 1)}
+                    | {0.5 + sg * m * 10.0 ** -k for k in range(2, 8) for m in (2, 3, 5, 9, 9.9) for sg in (-1, 1)}
+                    | {0.5 + rng.choice((-1, 1)) * 10.0 ** -(rng.random() * 16) for _ in range(40 * scale)}
+                    # and next to every other point where a piecewise approximation could switch: 0.1, 0.25, 0.025, 0.05, 0.01, 0.001 ...
+                    | {c * (1 + sg * 2.0 ** -k) for c in (0.25, 0.1, 0.05, 0.025, 0.02425, 0.01, 0.005, 0.001, 0.75, 0.9, 0.975) for k in (10, 20, 30, 40, 52) for sg in (-1, 1)})
     return ns, ps, cs, alphas
 
 
